@@ -10,6 +10,8 @@ EXTENDS Naturals, TLC
 CONSTANTS RepeatsMarker,   \* [end -> BOOLEAN]: does that end repeat the marker in re-exchange KEXINITs
           Latched,         \* TRUE: agreed_on_strict_kex is fixed by the initial exchange (as the code does);
                            \* FALSE: recomputed from every received KEXINIT (mutation)
+          Aead,            \* TRUE: the negotiated cipher is an AEAD (AES-GCM): no separate MAC over the sequence number
+          ResetSkipsAead,  \* mutation: the counters are only restarted for MAC-based cipher modes
           MaxRekeys, MaxTraffic
 Ends == {"c", "s"}
 RM == [e \in {"c", "s"} |-> e = "s"]   \* for configs: only the server repeats the marker
@@ -34,9 +36,12 @@ KexinitArrives(e) == /\ phase[e] = "open" /\ nrekey < MaxRekeys /\ ~broken
                      /\ agreed' = [agreed EXCEPT ![e] = IF Latched THEN @ ELSE RepeatsMarker[Peer(e)]]
                      /\ phase' = [phase EXCEPT ![e] = "kexinit_rcvd"]
                      /\ UNCHANGED <<seqOut, seqIn, nrekey, broken>>
+\* the restart does not depend on the cipher mode: the extension speaks of the packet sequence number, which the peer
+\* echoes in UNIMPLEMENTED and which the next MAC-based keys will cover again
+Resets(e) == agreed[e] /\ ~(ResetSkipsAead /\ Aead)
 NewKeys(e) == /\ phase[e] = "kexinit_rcvd" /\ phase[Peer(e)] # "open"
-              /\ seqOut' = [seqOut EXCEPT ![e] = IF agreed[e] THEN 0 ELSE @]
-              /\ seqIn' = [seqIn EXCEPT ![e] = IF agreed[e] THEN 0 ELSE @]
+              /\ seqOut' = [seqOut EXCEPT ![e] = IF Resets(e) THEN 0 ELSE @]
+              /\ seqIn' = [seqIn EXCEPT ![e] = IF Resets(e) THEN 0 ELSE @]
               /\ phase' = [phase EXCEPT ![e] = "newkeys_sent"]
               /\ UNCHANGED <<agreed, nrekey, broken>>
 Done == /\ \A e \in Ends : phase[e] = "newkeys_sent"
